@@ -439,7 +439,16 @@ def gen_link(d, mol, mode, previous):
                 rmeta = {'version': meta['version']} if 'version' in meta and d.pr(75) else {}
                 if 'version' not in meta and d.pr(10):
                     rmeta = {'version': d.ri(1, 2)}
-                rparams = list(params) if d.pr(25) else []
+                # parameters of a removal line: none (matches whatever the parameters are), all of them (must be equal),
+                # or - these must NOT match - a strict prefix of them / all of them with the last one altered
+                how = d.ch(['none'] * 11 + ['all'] * 4 + ['prefix'] * 3 + ['altered'] * 2)
+                rparams = []
+                if how == 'all':
+                    rparams = list(params)
+                elif how == 'prefix' and len(params) >= 2:
+                    rparams = list(params)[:d.ri(1, len(params) - 1)]
+                elif how == 'altered' and params and isinstance(params[-1], str):
+                    rparams = list(params)[:-1] + [params[-1] + '1']
                 link['removed'].append([type_, [key_of[a] for a in atoms], [[] for _ in atoms], rparams, rmeta])
             elif len(keys) >= 2:
                 link['removed'].append(gen_removal(d, link, keys, target, mode))
@@ -1070,6 +1079,8 @@ def _run_toy(case):
             classes.append(name.replace('_', '-'))
     if any(r['deleted'] for r in reports):
         classes.append('node-deleted')
+    if any(rem[3] for link in case['links'] for rem in link['removed']):
+        classes.append('removal-with-parameters')
     if model.ambiguous_types:
         classes.append('ambiguous')
     symmetric = False
